@@ -15,6 +15,9 @@ type BasicPrivateIssuer struct {
 }
 
 func NewBasicPrivateIssuer(key *oprf.PrivateKey) *BasicPrivateIssuer {
+	// The key computes and caches its public key on first use; do that here so that
+	// concurrent calls on the issuer never race on the lazy initialisation.
+	key.Public()
 	return &BasicPrivateIssuer{
 		tokenKey: key,
 	}
